@@ -82,6 +82,14 @@ OnTrk(e) ==
 DeepOk(where) == Chk(~st.comp.deep \/ st.ups = st.grs, "C09", "TrackerSeesEveryGrowthOnce", <<where, st.ups, st.grs>>)
 OnUp(e) == Result([st EXCEPT !.ups = Append(@, [k |-> e.e, sz |-> e.sz])], {})
 
+\* threshold segregators: a request of at most the threshold (count * size for arrays) goes to the segregatable,
+\* anything bigger to the next one; the thresholds are those the driver builds the compositions with
+SegExpected(name, bytes) ==
+  CASE name \in {"seg2", "ref_seg_sl", "anyref_seg"} -> IF bytes <= 32 THEN {1} ELSE {2}
+    [] name = "seg3" -> IF bytes <= 16 THEN {1} ELSE IF bytes <= 64 THEN {2} ELSE {3}
+    [] name = "seg_n" -> IF bytes <= 24 THEN {1} ELSE {2}
+    [] name = "seg_fb" -> IF bytes <= 32 THEN {1} ELSE {2, 3}
+    [] OTHER -> {1, 2, 3, 4, 5, 6, 7}
 OnRetWith(c, e) ==
   LET isAlloc == c.op \in {"an", "aa", "tn", "ta"}
       isTry == c.op \in {"tn", "ta", "tdn", "tda"}
@@ -104,6 +112,8 @@ OnRetWith(c, e) ==
                     \cup Chk(byPool \/ okA = {} \/ lf.al >= c.al, "C09", "LeafAlignAtLeast", <<c.al, lf.al>>)
                     \cup Chk(byPool \/ okA = {} \/ (e.b = lf.b /\ e.off >= lf.off /\ e.off + e.len <= lf.off + lf.n * lf.sz),
                              "C09", "ResultInsideLeafAllocation", <<e.b, e.off, e.len, lf.b, lf.off>>)
+                    \cup Chk(okA = {} \/ bytes = 0 \/ lf.L \in SegExpected(st.comp.name, bytes), "C09", "SegregatorRoutesBySize",
+                             <<st.comp.name, c.op, c.n, c.sz, lf.L>>)
                     \cup Chk(e.mis = 0, "C02", "Aligned", <<c.al, e.mis>>)
                     \cup Chk(~st.comp.trk \/ st.comp.fb \/ Cardinality(TrkAllocs(st.trks)) = 1, "C09", "TrackerSeesEachSuccessOnce", <<c.op, Len(st.trks)>>)
                     \cup Chk(~(st.comp.trk /\ st.comp.fb) \/ Cardinality(TrkAllocs(st.trks)) = 1, "C09", "TrackerSeesEachSuccessOnce", <<c.op, Len(st.trks)>>)
